@@ -24,11 +24,11 @@ ASSUMPTIONS = [
 ]
 
 PROFILE = scenario.profile(
-    maxD=3, extra_budget=(10, 90), cons_x0=("margin",), p_cons=0.15,
+    maxD=3, extra_budget=(10, 90), cons_x0=("margin", "margin", "snap_only", "boundary"), p_cons=0.2,
     max_iter_choices=(None,), tol_mesh_choices=(None, None, 1e-6, 1e-3, 0.1, 0.125, 0.0625, 0.5),
     noise_modes=("none", "none", "none", "auto", "declared", "specified"),
     # rarely used but supported controller options: unlocked search mesh, few searches per iteration
-    extra_opts=(("search_size_locked", (False,), 0.15), ("search_n_try", (0, 1, 2), 0.15)),
+    extra_opts=(("search_size_locked", (False,), 0.15), ("search_n_try", (0, 1, 2), 0.15), ("search_mesh_increment", (2, 3), 0.15)),
 )
 PROFILE_T = dict(PROFILE, maxD=6, extra_budget=(10, 300))
 N = {"quick": 224, "thorough": 4000}
